@@ -365,6 +365,49 @@ func runC08(p *core.Prog, r *core.Report) {
 				}
 			}
 		})
+		// the stripping may live in a helper of the family that receives the value and the found flag
+		isFoundOfGetAt := func(v ssa.Value) bool {
+			if ex, ok := core.ResolveCell(v).(*ssa.Extract); ok && ex.Index == 1 {
+				if call, ok := ex.Tuple.(*ssa.Call); ok && core.CommonCallee(call.Common()) == p.FuncObj(pkgStore, "baseStore.getAt") {
+					return true
+				}
+			}
+			return false
+		}
+		isFound := isFoundOfGetAt
+		outer := fn
+		if len(strips) == 0 {
+			for _, m := range core.Family(outer, 1) {
+				if m == outer || m.Parent() != nil {
+					continue
+				}
+				var ms []ssa.Instruction
+				core.Instrs(m, func(in ssa.Instruction) {
+					if sl, ok := in.(*ssa.Slice); ok && sl.Low != nil {
+						if k, ok := sl.Low.(*ssa.Const); ok && k.Int64() == 4 {
+							ms = append(ms, in)
+						}
+					}
+				})
+				if len(ms) == 0 {
+					continue
+				}
+				// which parameter of the helper receives getAt's found flag at the call in GetAt
+				for _, cs := range core.FindInstrs(outer, func(x ssa.Instruction) bool {
+					ci, ok := x.(ssa.CallInstruction)
+					return ok && core.StaticFn(ci.Common()) == m
+				}) {
+					for i, a := range cs.(ssa.CallInstruction).Common().Args {
+						if isFoundOfGetAt(a) && i < len(m.Params) {
+							prm := m.Params[i]
+							isFound = func(v ssa.Value) bool { return core.ResolveCell(v) == ssa.Value(prm) || v == ssa.Value(prm) }
+							strips, fn = ms, m
+							r.Touch(core.FuncName(m))
+						}
+					}
+				}
+			}
+		}
 		if len(strips) == 0 {
 			core.Undecide("GetAt: no tag stripping (out[4:]) found")
 		}
@@ -392,14 +435,12 @@ func runC08(p *core.Prog, r *core.Report) {
 			}
 			// the found flag of the inner getAt
 			c, neg := core.StripNot(ifi.Cond)
-			if ex, ok := core.ResolveCell(c).(*ssa.Extract); ok && ex.Index == 1 {
-				if call, ok := ex.Tuple.(*ssa.Call); ok && core.CommonCallee(call.Common()) == p.FuncObj(pkgStore, "baseStore.getAt") {
-					idx := 0
-					if neg {
-						idx = 1
-					}
-					foundEdges = append(foundEdges, core.Edge{From: ifi.Block(), Idx: idx})
+			if isFound(c) {
+				idx := 0
+				if neg {
+					idx = 1
 				}
+				foundEdges = append(foundEdges, core.Edge{From: ifi.Block(), Idx: idx})
 			}
 		})
 		for _, edges := range [][]core.Edge{policyEdges, foundEdges} {
